@@ -109,11 +109,15 @@ type controller struct {
 	// Called to stop the controller.
 	cancel context.CancelFunc
 
-	// Protects the below map.
+	// Protects the below fields.
 	mx sync.RWMutex
 
 	// The controller's sources, by watched GVK.
 	sources map[WatchID]*StoppableSource
+
+	// True once the controller has been stopped. A stopped controller is
+	// never started again - Start creates a new one.
+	stopped bool
 }
 
 // A WatchGarbageCollector periodically garbage collects watches.
@@ -276,6 +280,7 @@ func (e *ControllerEngine) Stop(ctx context.Context, name string) error {
 
 	// Stop and delete the controller.
 	c.cancel()
+	c.stopped = true
 	delete(e.controllers, name)
 
 	e.log.Debug("Stopped controller", "controller", name)
@@ -396,6 +401,14 @@ func (e *ControllerEngine) StartWatches(name string, ws ...Watch) error {
 	// read lock, so we compute everything again.
 	c.mx.Lock()
 	defer c.mx.Unlock()
+
+	// We looked the controller up before taking its lock. It's possible
+	// another Goroutine stopped it in the meantime. Stop has removed all of
+	// the controller's event handlers - we must not add new ones that nothing
+	// would ever remove.
+	if c.stopped {
+		return errors.Errorf("controller %q is not running", name)
+	}
 
 	// Start new sources.
 	for i, w := range ws {
